@@ -36,6 +36,14 @@ PURE_FUNCS = {
 
 
 def peval(t, env: Dict[tuple, object], funcs=None):
+    """Fold t under env; a rebuilt sub-term that itself is a key of env is replaced as well."""
+    r = _peval(t, env, funcs)
+    if r[0] != "const" and r in env:
+        return ("const", env[r])
+    return r
+
+
+def _peval(t, env: Dict[tuple, object], funcs=None):
     funcs = funcs or PURE_FUNCS
     if t in env:
         return ("const", env[t])
